@@ -9,11 +9,15 @@ nested_json_to_flat_json(NestedJsonRenderer), flat_text_to_flat_json(FlatTextRen
 nested_text_to_flat_json(NestedTextRenderer) equals FlatJsonRenderer (strictly: types, floats by repr, bytes);
 Encoder().process of the four inputs (as the CLI prepares them) gives the same bytes; the wired node tree holds
 every flat index exactly once as member, replication factor or associated-field attribute, in flat order,
-and every other attribute is one of those nodes.
+and every other attribute is one of those nodes; every bitmap-linked value (class 33 value after 222000, marker value)
+hangs on the SAME owner in all four views: `-> N` column of the flat text == bitmap_links == attribute owners in the
+node tree == owners (label and value) in the nested JSON == owners in the nested text, for every subset.
 Tie: node tree, nested JSON (without the table-text `description`), nested JSON -> flat and the side conditions of
 the conversion theorem, model (driver op `views`) against implementation.
-Inputs: the shared generated pipeline (levels 0-2, compressed or not, 1-4 subsets), the shapes the property
-names (see SHAPES), every file of tests/data and 40 / all of tests/benchmark_data.
+Inputs: the shared generated pipeline (levels 0-2, compressed or not, 1-4 subsets; its structural values are the
+same in every subset), messages whose subsets differ in their bitmaps, attribute counts and replication counts
+(harness/c09gen.py: every bitmap operator kind, equal descriptor lists with other links included), the shapes the
+property names (see SHAPES), every file of tests/data and 40 / all of tests/benchmark_data.
 """
 import json
 import multiprocessing
@@ -23,8 +27,12 @@ from harness import core, tables_io
 from harness import coder_io as C
 from harness import coderprops as P
 from harness import views_io as V
+from harness import c09gen
 
 PROP = 'C09'
+# self-test switch: skip the model / implementation comparison so that only the oracle on the implementation can report
+# (notes/C09_mutations.py --oracle)
+ORACLE_ONLY = bool(os.environ.get('VERIF_C09_ORACLE_ONLY'))
 
 META = dict(
     claimed=True,
@@ -35,11 +43,18 @@ META = dict(
          'n_repeats*n_members nodes per replication (the chunking the renderers rely on); nested JSON -> flat applied to the '
          'nested JSON of the wired tree returns exactly the flat value list under decidable side conditions (everything '
          'consumed, A labels exactly on associated-field nodes, chunk lengths, leading id digit) that the driver evaluates on '
-         'every case (_partial: the link "every successful decode satisfies them" is not proved and is false for the open '
-         'findings F11a-d/F15). Correspondence (node tree, nested JSON without table text, nested JSON -> flat, error family, '
+         'every case; the link to the coder is proved for two template classes quietList (elements of every class, sequences, '
+         'nested fixed / delayed replication, operators 201 202 205 207 208 221, plus either 203 or 204YYY+031021/204000 i.e. '
+         'associated fields on plain elements; uncompressed): by a step-by-step simulation of the coder walk by the wiring pass, '
+         'every successful decode of a subset is wired successfully, every decoded value is held exactly once (member, factor, '
+         'associated-field attribute), the side conditions hold and decode -> wire -> nested JSON -> flat returns the decoded '
+         'values (_partial: outside those classes - 203/206 with 204, 206, bitmap operators, compressed data - the link is not '
+         'proved and is false for the open findings F11a-d/F15). Correspondence (node tree, nested JSON without table text, nested JSON -> flat, error family, '
          'side conditions) and the property oracle on the implementation (three conversions == flat JSON, four encodings '
-         'equal, every flat index held once) on generated messages of every construct, the shapes the property names and '
-         'the sample files. The two TEXT formats are not modelled in Lean: they are decided by the oracle only.',
+         'equal, every flat index held once, every bitmap-linked value under the same owner in flat text, bitmap_links, node '
+         'tree, nested JSON and nested text of every subset) on generated messages of every construct, messages whose subsets '
+         'have different bitmaps / attribute counts / replication counts (all five bitmap operators, equal descriptor lists '
+         'with different links included), the shapes the property names and the sample files. The two TEXT formats are not modelled in Lean: they are decided by the oracle only.',
     technique='Lean 4 theorems (mutual structural induction over the template and the node tree) + checked model/implementation '
               'correspondence + property oracle on the implementation',
     note='description strings (table text) are outside the model; meaning nodes surviving from an earlier subset and shared '
@@ -214,6 +229,8 @@ def oracle(obs):
             bad.append((name, 'converted != flat JSON at %s: %s vs %s' % tuple(st['diff'])))
         elif st.get('layout_equal') is False:
             bad.append((name + '_layout', 'nested text and nested JSON lay the nodes out differently: %s' % st.get('layout_diff')))
+    for stage, why in (obs.get('owners') or {}).get('problems', []):
+        bad.append((stage, why))
     if 'enc_same' in obs and not obs['enc_same'] and not bad:
         bad.append(('encode', 'encodings differ: %s' % {k: (v[:60] if isinstance(v, str) else v) for k, v in obs['enc'].items()}))
     return bad
@@ -310,6 +327,16 @@ def check_one(ctx, ids, b, obs, model, tag=None, shrinker=None):
     if 'harness_error' in obs:
         raise core.MachineryError('observation failed: ' + obs['harness_error'])
     reported = False
+    exempt = (obs.get('owners') or {}).get('exempt')
+    if exempt:
+        # a class 33 value with an associated field is wired as a plain member, its link is not shown (C07 finding
+        # F11-C07-wire-qa33).  Reported as soon as KNOWN_FINDINGS.json lists it for C09, counted until then.
+        sig = {'kind': 'oracle', 'stage': 'owners', 'assoc_in_force_over': ['qa33'], 'qa_resumed': False}
+        if any(kf.get('status') == 'open' and kf.get('property') == PROP and core.finding_matches(kf, sig) for kf in ctx.findings):
+            ctx.violation('oracle owners: %d links of the flat view are not shown in the nested views (class 33 value with an associated field) (ids %s)' % (
+                exempt, (ids or [])[:40]), {'ids': ids, 'message_hex': b.hex() if b is not None else None}, signature=sig)
+        else:
+            ctx.count('owners-exempt:assoc-over-qa33', exempt)
     bad = oracle(obs)
     for stage, why in bad[:1]:
         ids2, b2, why2 = ids, b, why
@@ -322,7 +349,7 @@ def check_one(ctx, ids, b, obs, model, tag=None, shrinker=None):
                 ids2, b2, why2 = small
         report(ctx, 'oracle', stage, why2, ids2, b2, tag=tag)
         reported = True
-    if model is not None:
+    if model is not None and not ORACLE_ONLY:
         why = correspondence(obs, model)
         if why:
             report(ctx, 'correspondence', 'model', why, ids, b, tag=tag)
@@ -338,6 +365,7 @@ def run(ctx):
     pool = multiprocessing.Pool(min(14, os.cpu_count() or 2))
     try:
         run_shapes(ctx, drv, treq)
+        run_bitmaps(ctx, drv, treq, pool)
         run_generated(ctx, drv, treq, pool)
         run_corpus(ctx, drv, pool)
     finally:
@@ -425,6 +453,57 @@ def run_generated(ctx, drv, treq, pool):
                 ctx.count('wire-fails')
             forced = {k: v for k, v in c.forced}
             check_one(ctx, c.ids, b, obs, model, shrinker=make_shrinker(ctx, drv, treq, c.parts, forced, c.n, c.comp))
+
+
+def run_bitmaps(ctx, drv, treq, pool):
+    """subsets that differ in their bitmaps / attribute counts / replication counts (harness/c09gen.py)"""
+    rng = ctx.rng('bitmaps')
+    count = 300 if ctx.tier == 'quick' else 6000
+    done = 0
+    while done < count:
+        k = min(300, count - done)
+        cases, refused = c09gen.bitmap_cases(drv, treq, rng, k)
+        for c in cases + refused:
+            c.idx += done
+        done += k
+        if refused:
+            ctx.count('bitmap:generator-refused', len(refused))
+        msgs = []
+        for c in cases:
+            js = C.make_message_json(c.ids, P.py_inputs(c.valss), c.comp, edition=c.edition)
+            st, b, _ = C.impl_encode(js)
+            if st != 'ok':
+                ctx.count('bitmap:encoder-refused')
+                continue
+            msgs.append((c, b))
+        obss = pool.map(evaluate, [(b, True) for _, b in msgs], chunksize=8)
+        models = drv.batch([treq] + [views_request(c.ids, o, b) for (c, b), o in zip(msgs, obss)])[1:]
+        for (c, b), obs, model in zip(msgs, obss, models):
+            ctx.case({'ids': c.ids, 'n': c.n, 'compressed': c.comp, 'edition': c.edition, 'forced': c.forced},
+                     nontrivial=obs.get('decode') == 'ok', sample=len(ctx.samples) < 2)
+            ctx.traces += 1
+            ctx.count('bitmap:compressed' if c.comp else 'bitmap:uncompressed')
+            ctx.count('bitmap:tail-' + c.info['tail'])
+            if c.info['counts']:
+                ctx.count('bitmap:replication-counts-' + c.info['counts'])
+            for d in c.info['chain']:
+                ctx.count('bitmap:op%d' % d['kind'])
+                ctx.count('bitmap:%s' % d['mode'])
+                if d['mode'] == 'define':
+                    ctx.count('bitmap:bits-' + d['bits'])
+                ctx.count('bitmap:consumers-' + d['consumers'])
+            if obs.get('decode') != 'ok':
+                ctx.count('bitmap:decode-' + str(obs.get('decode')))
+                continue
+            if obs['wire'] != 'ok':
+                ctx.count('wire-fails')
+            ow = obs.get('owners') or {}
+            ctx.count('bitmap:links', ow.get('links', 0))
+            if ow.get('subsets_differing'):
+                # what the wiring depends on besides the descriptors: same decoded descriptors as the subset before, other links
+                ctx.count('bitmap:same-descriptors-other-links')
+                ctx.count('bitmap:same-descriptors-other-links:op%d' % c.info['chain'][0]['kind'])
+            check_one(ctx, c.ids, b, obs, model, tag='bitmaps')
 
 
 def corpus_item(path):
